@@ -4,10 +4,13 @@ package gse
 
 import (
 	"fmt"
+	"strings"
 )
 
 type cliState struct {
 	flags       map[string]Value
+	cells       map[string]Ptr // registered flag cells by name
+	args        []string       // what flag.Args() answers
 	nargs       int
 	parseOK     *Term
 	typeOK      *Term
@@ -28,7 +31,39 @@ func init() {
 		}
 		cell := new(Value)
 		*cell = v
+		m.path.cli.cells[name] = Ptr(cell)
 		return Ptr(cell)
+	}
+	// parseList models (*flag.FlagSet).Parse on a list of tokens: flags up to the first
+	// positional argument are stored into their cells, the rest becomes Args()
+	parseList := func(m *Machine, list []string) Value {
+		cli := m.path.cli
+		i := 0
+		for ; i < len(list); i++ {
+			tok := list[i]
+			if len(tok) < 2 || tok[0] != '-' {
+				break
+			}
+			name := strings.TrimLeft(tok, "-")
+			val := "true"
+			if k := strings.IndexByte(name, '='); k >= 0 {
+				name, val = name[:k], name[k+1:]
+			}
+			cell, ok := cli.cells[name]
+			if !ok {
+				m.path.events = append(m.path.events, "EXIT 2")
+				m.endPath(OutExit, "flag provided but not defined: -"+name)
+			}
+			if t, isT := (*cell).(*Term); isT && t.Sort == SBool {
+				*cell = m.ts.Bool(val == "true")
+			} else {
+				var n int64
+				fmt.Sscan(val, &n)
+				*cell = m.ts.BV(uint64(n), 64)
+			}
+		}
+		cli.args = append([]string{}, list[i:]...)
+		return Iface{}
 	}
 	cliExternals = map[string]externalFn{
 		"flag.Bool":  func(m *Machine, c *frame, a []Value) Value { return flagCell(m, a) },
@@ -36,11 +71,33 @@ func init() {
 		"flag.Uint":  func(m *Machine, c *frame, a []Value) Value { return flagCell(m, a) },
 		"flag.Parse": extNop,
 		"flag.Args": func(m *Machine, c *frame, a []Value) Value {
-			out := make([]Value, m.path.cli.nargs)
-			for i := range out {
-				out[i] = mkStr(fmt.Sprintf("file%d.grits", i))
+			out := make([]Value, len(m.path.cli.args))
+			for i, s := range m.path.cli.args {
+				out[i] = mkStr(s)
 			}
 			return Slice{A: out}
+		},
+		"flag.NArg": func(m *Machine, c *frame, a []Value) Value {
+			return m.ts.BV(uint64(len(m.path.cli.args)), 64)
+		},
+		"flag.Arg": func(m *Machine, c *frame, a []Value) Value {
+			i := int(m.concreteInt(a[0], "flag.Arg index"))
+			if i < 0 || i >= len(m.path.cli.args) {
+				return mkStr("")
+			}
+			return mkStr(m.path.cli.args[i])
+		},
+		"(*flag.FlagSet).Parse": func(m *Machine, c *frame, a []Value) Value {
+			sl, _ := a[1].(Slice)
+			var list []string
+			for _, v := range sl.A {
+				s, ok := v.(Str).Concrete()
+				if !ok {
+					m.unsupported("FlagSet.Parse of a symbolic token")
+				}
+				list = append(list, s)
+			}
+			return parseList(m, list)
 		},
 		"grits/parser.ParseFile": func(m *Machine, c *frame, a []Value) Value {
 			cli := m.path.cli
@@ -90,7 +147,7 @@ func init() {
 func (m *Machine) callVNCli(name string, args []Value) (Value, bool) {
 	switch name {
 	case "CliBegin":
-		m.path.cli = &cliState{flags: map[string]Value{}, parseOK: m.ts.True, typeOK: m.ts.True}
+		m.path.cli = &cliState{flags: map[string]Value{}, cells: map[string]Ptr{}, parseOK: m.ts.True, typeOK: m.ts.True}
 		return nil, true
 	case "CliFlagBool", "CliFlagInt":
 		n, _ := args[0].(Str).Concrete()
@@ -98,8 +155,19 @@ func (m *Machine) callVNCli(name string, args []Value) (Value, bool) {
 		return nil, true
 	case "CliArgs":
 		m.path.cli.nargs = int(m.concreteInt(args[0], "CliArgs count"))
+		m.path.cli.args = nil
+		for i := 0; i < m.path.cli.nargs; i++ {
+			m.path.cli.args = append(m.path.cli.args, fmt.Sprintf("file%d.grits", i))
+		}
 		m.path.cli.parseOK = args[1].(*Term)
 		m.path.cli.typeOK = args[2].(*Term)
+		return nil, true
+	case "CliTrailing":
+		tok, ok := args[0].(Str).Concrete()
+		if !ok {
+			m.unsupported("CliTrailing with a symbolic token")
+		}
+		m.path.cli.args = append(m.path.cli.args, tok)
 		return nil, true
 	case "CliRan":
 		return m.ts.Bool(m.path.cli.ran), true
